@@ -57,6 +57,7 @@ class ExecImpl : public ClauseSink {
   bool has_viol = false;
   bool stop = false;       // stop stepping (violation or desync)
   int cur_op_index = -1;
+  bool ctx_rejected_call = false;  // the current top-level operation is a call the model rejects: nothing may change (C01)
   bool ctx_moved_mock = false;  // the current operation touches a mock that was created by a move (C14 co-owns what goes wrong there)
   int depth = 0;
   uint64_t hash = 0xcbf29ce484222325ULL;
